@@ -114,7 +114,7 @@ def flagsText (edited : Bool) (fheq mdeq : Bool) (f : HeaderFlags) : String :=
 def modelRun (file : Bytes) (edits : List CEdit) (withView : Bool := true) : String × Option Bytes :=
   match fromExisting file with
   | .error .fail => ("none", none)
-  | .error .panic => ("panic", none)
+  | .error .panic => ("none", none)   -- reader panic sites return `None` since the C18-5x fixes
   | .ok m0 =>
     match edits.foldlM applyCEdit m0 with
     | .error _ => ("panic@edit", none)
@@ -125,7 +125,7 @@ def modelRun (file : Bytes) (edits : List CEdit) (withView : Bool := true) : Str
       | .ok buf =>
         match fromExisting buf with
         | .error .fail => ("none@reparse", some buf)
-        | .error .panic => ("panic@reparse", some buf)
+        | .error .panic => ("none@reparse", some buf)   -- reader panic sites return `None` (C18-5x fixes)
         | .ok m1 =>
           let fl := headerFlags m1.fileHeader buf.length m1.lods
           ("ok " ++ flagsText (!edits.isEmpty) (buf.take 68 == file.take 68)
